@@ -5,7 +5,7 @@ from .. import engine as E
 from .. import catalogue as K
 from .. import tys as T
 
-THEOREMS = ["c14_first_report", "c14_ok_same"]
+THEOREMS = ["c14_first_report", "c14_ok_same", "c14_path_roundtrip", "c14_path_injective"]
 
 
 def float_bits(p, acc):
